@@ -205,7 +205,7 @@ def search(prep, spec, timeout, excl=()) -> dict:
     return {"status": "ok", "tried": tried, "satisfied": satisfied}
 
 
-class _Found(Exception):
+class _Found(BaseException):
     pass
 
 
